@@ -18,7 +18,9 @@ CHECKS = {
         "Generated-input search: thousands (quick) to millions (thorough) of "
         "token soups, grammar documents, mutated real pages and deep nestings, "
         "every triple of a 51-token core alphabet, and coverage-guided "
-        "campaigns with the oracle inside the target are parsed in three "
+        "campaigns with the oracle inside the target, plus pumped inputs "
+        "(opener x 40 repetitions of every unit / unit pair, 30 s watchdog "
+        "decisive for inputs <= 600 characters) are parsed in three "
         "modes and the returned tree is checked against the well-formedness "
         "predicate of the statement; absence of a counterexample within that "
         "search, not a proof.",
@@ -77,8 +79,10 @@ CHECKS = {
         "output under pre_expand / templates_to_expand / "
         "templates_to_not_expand / flags / switches / hooks must equal the "
         "reference output, the sequence of template_fn calls must equal the "
-        "reference call log, and nothing-selected pages must come back "
-        "unchanged. Sampled search, not exhaustive.",
+        "reference call log, and nothing-selected pages - enumerated "
+        "kept-call x container x inner-construct nestings and pages from the "
+        "full grammar - must come back unchanged up to blanks and free of "
+        "placeholder characters. Sampled search, not exhaustive.",
         "Trusts refs/transclude.py's selection model (taken from the expand() "
         "docstring); parser-function arguments under a selection are "
         "text-only.",
@@ -287,8 +291,11 @@ CHECKS = {
         "hostile arguments, and every filter-passing attribute of every "
         "reachable Python object is compared by identity with the host's "
         "forbidden capabilities and classified (the attribute filter itself "
-        "is probed from the Lua side); 47 classic escapes and "
-        "generated path programs run in scratch directories with canary "
+        "is probed from the Lua side); the classic escapes, generated path "
+        "programs, hostile module pages stored under every built-in Lua "
+        "file's module name, and two-step tamper histories (wrap the global "
+        "helpers / push environments, then further outermost invocations) "
+        "run in scratch directories with canary "
         "file, environment variable, database and context snapshots.",
         "Exhaustive only for the stated edge alphabet (no upvalues, helpers "
         "are not called with arguments by the walk); trusts lupa's table "
